@@ -97,7 +97,7 @@ def rth_entry(rng):
     neckd = f32(rng.choice([0, 0, 2, 70])) if action == 3 else 0.0
     # (entry times and pre-delays whose sum does not fit 32-bit milliseconds, or is not a number: the conversion fails
     # at its very first step, before or after whatever it has allocated by then)
-    time = rng.choice([0.0, 5.0, 100.0, -3.0, 65.0, 5e6, 4294967.5, 4294000.0, float("nan"), float("inf")])
+    time = rng.choice([0.0, 5.0, 100.0, -3.0, 65.0, 5e6, 4294967.5, float("nan"), float("inf")])
     pre = rng.choice([0.0, 2.0, 70.0, -1.0, 1000.0, 16777216.0, float("inf")])
     return "%s:%d:%s:%s:%s:%s:%s:%s:%s:%s:%s" % (
         fhex(time), action, fhex(dur()), fhex(co()), fhex(co()), fhex(co() if action == 3 else 0.0),
